@@ -28,7 +28,17 @@ def run(strategy, n, hseed, body, ctx=None):
     def _t(v):
         if ctx is not None and ctx.out_of_time():
             raise _Stop
-        body(v)
+        try:
+            body(v)
+        except MemoryError:
+            # workers run under an address-space limit (runner._worker) so that a runaway allocation fails inside the case;
+            # where the property module does not judge that itself (C04 does), the case is counted and the shard goes on
+            if ctx is None:
+                raise
+            import gc
+
+            gc.collect()
+            ctx.count("memory_error_in_case")
 
     try:
         _t()
